@@ -370,6 +370,153 @@ theorem trivial_delete_applies' (S : Schema) (hst : TextAbsorb S) (htp : TextSta
       exact ⟨doc', h⟩
   · simp at htr
 
+/-! ### the trivial fit with content: `ReplaceStep(from, to, slice)` for a closed slice that `can_replace` approved -/
+
+/-- `can_replace(i, j, replacement)` on a valid child list: the children before `i`, the replacement, the children from
+    `j` on are valid content -/
+theorem canReplace_range_valid (S : Schema) (tyP : TypeId) (L A Lr B Lr' c : List Node)
+    (hA : L = A ++ Lr) (hB : L = B ++ Lr') (hvL : S.validContent tyP L = true)
+    (hcr : S.canReplace tyP L A.length B.length c 0 c.length = some true) :
+    S.validContent tyP (A ++ c ++ Lr') = true := by
+  have hall := allowsMarks_of_valid S _ _ hvL
+  unfold Schema.canReplace Schema.contentMatchAt at hcr
+  have e1 : L.take A.length = A := by rw [hA]; simp
+  have e2 : L.drop B.length = Lr' := by rw [hB]; simp
+  have e3 : (c.take c.length).drop 0 = c := by simp
+  rw [e1, e2] at hcr
+  simp only [e3] at hcr
+  split at hcr
+  · simp at hcr
+  · rename_i q hq
+    split at hcr
+    · simp at hcr
+    · rename_i q1 hq1
+      split at hcr
+      · simp at hcr
+      · rename_i q2 hq2
+        simp only [Option.some.injEq, Bool.and_eq_true] at hcr
+        have hacc : (S.dfa tyP).accepts (S.types (A ++ c ++ Lr')) = true := by
+          unfold Dfa.accepts
+          rw [types_append, types_append, List.append_assoc, Dfa.run_append, hq]
+          simp only [Option.bind_some]
+          rw [Dfa.run_append, hq1]
+          simp only [Option.bind_some, hq2]
+          exact hcr.1
+        simp only [Schema.validContent, hacc, Bool.true_and, List.all_eq_true]
+        intro x hx
+        simp only [List.mem_append] at hx
+        rcases hx with (h | h) | h
+        · exact hall x (by rw [hA]; simp [h])
+        · exact List.all_eq_true.1 hcr.2 x h
+        · exact hall x (by rw [hB]; simp [h])
+
+theorem flat_insert_valid (S : Schema) (hst : TextAbsorb S) (tyP : TypeId) (L A Lr B Lr' c : List Node) (k k' : Nat)
+    (hA : L = A ++ Lr) (hB : L = B ++ Lr') (hvL : S.validContent tyP L = true)
+    (hcr : S.canReplace tyP L A.length B.length c 0 c.length = some true) :
+    S.validContent tyP (A ++ headCut Lr k ++ c ++ tailCut Lr' k') = true := by
+  rw [validContent_tailCut S tyP (A ++ headCut Lr k ++ c) Lr' k']
+  have h2 := canReplace_range_valid S tyP L A Lr B Lr' c hA hB hvL hcr
+  unfold headCut
+  split
+  · simpa using h2
+  · split
+    · rename_i s m r
+      have := validContent_text_front' S hst tyP A r (c ++ Lr') s (s.take k) m (by rw [← hA]; exact hvL)
+        (by simpa using h2)
+      simpa using this
+    · simpa using h2
+
+/-- a replace with a closed slice between two positions at depth 0 of a nested node's children: if the new child
+    list is valid, the step applies -/
+theorem level_replace_applies (S : Schema) (hts : TextStableP S) (ty0 : TypeId) (a0 : Attrs) (m0 : Marks) (K : List Node)
+    (hv : S.checkNode (.elem ty0 a0 m0 K) = true) (hn : fnorm K = true)
+    {b nd : Nat} {tyP : TypeId} {ctx : List Node → List Node} {L A Lr B Lr' : List Node} {fP tP k k' : Nat}
+    (c : List Node) (hcn : fnorm c = true)
+    (hl : Lvl ty0 K b nd tyP L ctx) (hF : FlatAt L fP A Lr k) (hT : FlatAt L tP B Lr' k') (hft : fP ≤ tP)
+    (hval : S.validContent tyP (A ++ headCut Lr k ++ c ++ tailCut Lr' k') = true) :
+    ∃ doc', S.apply (.replace (b + fP) (b + tP) ⟨c, 0, 0⟩ false) (.elem ty0 a0 m0 K) = .ok doc' := by
+  have hvK : S.validContent ty0 K = true ∧ S.checkKids K = true := by
+    simp only [checkNode_elem, Bool.and_eq_true] at hv
+    exact ⟨hv.1.1, hv.2⟩
+  obtain ⟨hvL, _, hnL⟩ := hl.valid hvK.1 hvK.2 hn
+  have hrep := replaceKids_flat (S := S) hl c fP tP hft hT.le hF.depth hT.depth
+  obtain ⟨Y, hnY, htY, hY⟩ := atLevel_flat_spec S c hcn tyP L fP tP hft hT.le hF.depth hT.depth hF.aligned hT.aligned hnL
+  have hnk := fnormKids_of_fnorm hnL
+  have hnA : fnormKids A = true := by
+    have := hnk
+    rw [hF.split, fnormKids_append, Bool.and_eq_true] at this
+    exact this.1
+  have hnp : fnormKids (A ++ headCut Lr k ++ c ++ tailCut Lr' k') = true := by
+    simp only [fnormKids_append, Bool.and_eq_true]
+    exact ⟨⟨⟨hnA, hF.head_norm⟩, fnormKids_of_fnorm hcn⟩, hT.tail_norm hnk⟩
+  have hYe : Y = fromArray (A ++ headCut Lr k ++ c ++ tailCut Lr' k') := by
+    apply ftoks_inj _ _ hnY (fromArray_norm _ hnp)
+    rw [htY, fromArray_toks, hF.take, hT.drop]
+    simp [ftoks_append]
+  have hvalY : S.validContent tyP Y = true := by
+    rw [hYe]; exact validContent_fromArray hts _ _ hval
+  refine ⟨.elem ty0 a0 m0 (ctx Y), ?_⟩
+  simp only [Schema.apply, Bool.false_eq_true, if_false, Schema.fromReplace, Schema.replace, hrep, hY,
+    hvalY, if_true, Except.map]
+
+/-- **a closed slice that fits trivially applies**: `from` and `to` have the same parent, which approved
+    `can_replace(index(from), index(to), slice.content)`; either end may lie inside a text child -/
+theorem trivial_replace_applies (S : Schema) (hst : TextAbsorb S) (htp : TextStableP S) (ty0 : TypeId) (a0 : Attrs)
+    (m0 : Marks) (K : List Node) (f t : Nat) (rf rt : RPos) (sl : Slice)
+    (hf : (Node.elem ty0 a0 m0 K).resolve f = some rf) (ht : (Node.elem ty0 a0 m0 K).resolve t = some rt)
+    (hv : S.checkNode (.elem ty0 a0 m0 K) = true) (hn : fnorm K = true) (hsn : fnorm sl.content = true) (hft : f ≤ t)
+    (hpf : rf.pairOk = true) (hpt : rt.pairOk = true)
+    (htr : fitsTriviallyR S rf rt sl = some true) :
+    ∃ doc', S.apply (.replace f t sl false) (.elem ty0 a0 m0 K) = .ok doc' := by
+  have Rf := resolve_resolved hf
+  have Rt := resolve_resolved ht
+  unfold fitsTriviallyR at htr
+  split at htr
+  · rename_i hc
+    simp only [Bool.and_eq_true, beq_iff_eq] at hc
+    have hsame0 := hc.2
+    have hsl : sl = ⟨sl.content, 0, 0⟩ := by
+      cases sl; simp only at hc; simp [hc.1.1, hc.1.2]
+    have hd : rt.depth = rf.depth := by
+      rcases Nat.le_total rf.depth rt.depth with h | h
+      · exact (same_start_depth Rf Rt hsame0 h).symm
+      · exact same_start_depth Rt Rf hsame0.symm h
+    have hsame : rf.start rf.depth = rt.start rf.depth := by
+      have := hsame0; rw [hd] at this; exact this
+    obtain ⟨hnode, _, _, _⟩ := same_ancestors Rf Rt rf.depth (rf.start rf.depth) (Nat.le_refl _) (by omega)
+      (Nat.le_refl _) (by unfold RPos.end_; omega) (by omega) (by unfold RPos.end_; omega) rf.depth (Nat.le_refl _)
+    have hpar : rt.parent = rf.parent := by
+      unfold RPos.parent; rw [hd]; exact hnode.symm
+    obtain ⟨tyP, aP, mP, ctx, eP, hl⟩ := Resolved.lvl hf hn rf.depth (Nat.le_refl _)
+    have hty : S.tyOf rf.parent = tyP := by
+      show S.tyOf (rf.node rf.depth) = tyP
+      rw [eP]; rfl
+    obtain ⟨hF, hsf, hif⟩ := resolved_flatAt hf hpf
+    obtain ⟨hT, hst', hit⟩ := resolved_flatAt ht hpt
+    rw [hpar, ← hsame0] at hT
+    rw [hpar] at hit
+    rw [← hsame0] at hst'
+    have hvK : S.validContent ty0 K = true ∧ S.checkKids K = true := by
+      simp only [checkNode_elem, Bool.and_eq_true] at hv
+      exact ⟨hv.1.1, hv.2⟩
+    obtain ⟨hvL, _, _⟩ := hl.valid hvK.1 hvK.2 hn
+    unfold Schema.nodeCanReplace at htr
+    split at htr
+    · simp at htr
+    · rw [hty] at htr
+      have hAl : (rf.parent.kids.take (rf.index rf.depth)).length = rf.index rf.depth := by
+        rw [List.length_take]; omega
+      have hBl : (rf.parent.kids.take (rt.index rt.depth)).length = rt.index rt.depth := by
+        rw [List.length_take]; omega
+      have hval := flat_insert_valid S hst tyP rf.parent.kids _ _ _ _ sl.content rf.textOffset rt.textOffset hF.split
+        hT.split hvL (by rw [hAl, hBl]; exact htr)
+      obtain ⟨doc', h⟩ := level_replace_applies S htp ty0 a0 m0 K hv hn sl.content hsn hl hF hT (by omega) hval
+      have e1 : rf.start rf.depth + (f - rf.start rf.depth) = f := by omega
+      have e2 : rf.start rf.depth + (t - rf.start rf.depth) = t := by omega
+      rw [e1, e2, ← hsl] at h
+      exact ⟨doc', h⟩
+  · simp at htr
+
 /-! ### `replace_step` on a deletion: a replace-step answer applies -/
 
 /-- **every `ReplaceStep` that `replace_step` emits for a deletion applies** -/
